@@ -37,7 +37,9 @@ func TestVerifEvict(t *testing.T) {
 	if vh.Thorough() {
 		maxPieces = 4
 	}
-	states := []string{"empty", "partial", "full", "complete"}
+	// "bufonly": a block shorter than 16 KiB arrived first (the head of a web-seed
+	// body, a truncated block): the buffer is allocated and counted, no block is marked
+	states := []string{"empty", "partial", "full", "complete", "bufonly"}
 	ages := []uint32{0, 1, 10, 7199, 7200, 9000}
 	avs := []int{0, 1, 3}
 	const psize = 2 * chunk
@@ -95,6 +97,8 @@ func TestVerifEvict(t *testing.T) {
 						for i := 0; i < n; i++ {
 							idx := uint32(i)
 							switch st[i] {
+							case "bufonly":
+								w.ps.AddData(idx, 0, w.good(idx, 0, 100), 1)
 							case "partial":
 								w.ps.AddData(idx, 0, w.good(idx, 0, chunk), 1)
 							case "full":
